@@ -924,3 +924,66 @@ def run_failpath(prog, E=None, prefix="mpq_", rule="R-INVALPART"):
     res.counts["public_callers_of_batch_routines"] = n
     res.floor("public callers of batch routines", n, 3)
     return res
+
+
+def run_normstale(prog, E=None, prefix="mpq_", rule="R-NORMSTALE", floor=3):
+    """the steepest-edge norms stored with the problem's basis are weights of the rows / columns of the inverse of the *current* basis
+    matrix.  A public function that may write the entries of the constraint matrix without changing a dimension (effect summaries: a
+    write of ILLlpdata::A through the problem parameter, none of nrows / ncols / nstruct) must, on every path from that write to a success return, pass an event that deals with both norm arrays of
+    p->basis: a release / store into ILLlp_basis::rownorms and ::colnorms through p->basis (directly, by a helper, or inside a library
+    routine that extends or drops them).  A coefficient or sense change that leaves them alone makes the next warm dual solve load the
+    weights of another matrix; the exact weight recurrence then leaves the positive range and the pricing divides by a zero weight."""
+    E = E or Effects(prog)
+    res = RuleResult(rule, "every public function that may write the entries of the constraint matrix deals with both edge-norm arrays of p->basis "
+                           "on every path from the write to a success return")
+    n = 0
+    for f, pidx in api_functions(prog, prefix):
+        if f.live is None:
+            continue
+        mut = events(prog, E, f, pidx, {"A"}, prefix)
+        if not mut:
+            continue
+        # functions that change a dimension extend / repack the norm arrays with the basis (R-NORMLEN, R-PRICEDIM are in charge of those);
+        # here: changes of entries of the matrix as it stands (a coefficient, the sign of a logical column)
+        if events(prog, E, f, pidx, {"nrows", "ncols", "nstruct"}, prefix):
+            continue
+        bname = base(f.name)
+        if bname in ("QSfree_prob",):
+            continue
+        n += 1
+        res.obligations += 1
+        res.nontrivial += 1
+        missing = []
+        for fld in ("rownorms", "colnorms"):
+            inv = set()
+            for ci in E.callinfo[f.key]:
+                (g, name, loc, args, bid, idx, c) = ci
+                if g is None:
+                    continue
+                if any(fp and fp[-1].endswith("ILLlp_basis::" + fld) for (j, fp) in E.call_writes(f, ci)):
+                    inv.add((bid, idx))
+                elif g.key in getattr(prog, "_normstale_ok", set()):
+                    inv.add((bid, idx))
+            for (j, fp, loc, how, bid, idx) in E.direct_writes(f):
+                if fp and fp[-1].endswith("ILLlp_basis::" + fld):
+                    inv.add((bid, idx))
+            # replacing / dropping the whole basis record deals with its norms too
+            for (j, fp, loc, how, bid, idx) in E.direct_writes(f):
+                if j == pidx and len(fp) == 1 and fp[0].endswith("qsdata::basis"):
+                    inv.add((bid, idx))
+            an = MustFollow(prog, f, mut, inv).run()
+            if an.bad:
+                loc, (bid, st) = sorted(an.bad.items())[0]
+                missing.append((fld, loc, an.flow.witness(bid, st)))
+        if missing:
+            what = sorted(set(d for (_, d) in mut.values()))
+            res.violations.append(Violation(rule, "%s|matrix written, %s kept" % (bname, " and ".join(m[0] for m in missing)), f.name, short_loc(missing[0][1]),
+                                            "%s; a return with code 0 is reachable on which %s of p->basis has been neither released nor rewritten: the next warm "
+                                            "solve loads the edge weights of the old matrix" % ("; ".join(what[:2]), " / ".join(m[0] for m in missing)),
+                                            path=missing[0][2]))
+        else:
+            prog.__dict__.setdefault("_normstale_ok", set()).add(f.key)
+            res.sample({"function": f.name, "verdict": "both norm arrays dealt with on every success path"}, limit=10)
+    res.counts["public_matrix_writers"] = n
+    res.floor("public functions that may write matrix entries without changing a dimension", n, floor)
+    return res
